@@ -130,6 +130,10 @@ def eval_recv(case):
         elif kind == "almost":
             if t_last is not None and t_last + cfg["chk_ms_dst"] - 1 > sim.CLOCK.now:
                 sim.CLOCK.now = t_last + cfg["chk_ms_dst"] - 1
+        elif kind == "wait":
+            # time passes while the file data is still coming in (before the EOF): no check timer is running yet
+            if t_last is None:
+                sim.CLOCK.now += op[1]
         if kind == "eof" and t_last is None:
             t_last = sim.CLOCK.now
         res = rig.call(pdu)
@@ -236,12 +240,13 @@ def eval_send(case):
     from spacepackets.util import UnsignedByteField
     from cfdppy.request import PutRequest
 
+    # "a sender that requested closure": by the MIB default, or by the put request over a MIB default of False
     req = PutRequest(
         destination_id=UnsignedByteField(cfg["dst_id"][1], cfg["dst_id"][0]),
         source_file=srcp,
         dest_file=root / "dst.bin",
         trans_mode=sim.MODES["NAK"],
-        closure_requested=True,
+        closure_requested=None if cfg["closure"] else True,
     )
     vs = []
     h.put_request(req)
@@ -384,6 +389,10 @@ def exhaustive_cases(shard, nshards, tier):
                         if s < L:
                             tl.append(["tick", (s * 7) % 3])
                     tl2 = tl + [["tick", 1]]  # one more expiry: must change nothing once the transaction is over
+                    if (idx // 3) % 2 == 0:
+                        # the transfer took a while: several check-timer intervals pass between the Metadata PDU and the EOF
+                        k = tl2.index("eof")
+                        tl2 = tl2[:k] + [["wait", 2500]] + tl2[k:]
                     yield {"part": "recv", "cfg": _cfg(csum, closure, L, 1000, 77 if (n + L) % 2 else 9000), "n": n, "seg": SEG, "size": size, "pat": b"\x21\x43\x65\x87\xa9", "timeline": tl2}
     # sender side
     for csum, size in itertools.product(["CRC_32", "CRC_32C", "MODULAR", "NULL_CHECKSUM"], [0, 1, SEG, 2 * SEG + 1]):
@@ -407,7 +416,7 @@ def exhaustive_cases(shard, nshards, tier):
             if idx % nshards != shard:
                 continue
             for other in (77, 9000):
-                c = _cfg(csum, True, 2)
+                c = _cfg(csum, other == 77, 2)  # closure from the MIB (True) or only from the request (MIB False)
                 c["chk_ms_src"], c["chk_ms_dst"] = 1000, other
                 yield {"part": "send", "cfg": c, "seg": SEG, "size": size, "pat": b"\x10\x20\x30", "timeline": tl}
 
@@ -423,7 +432,7 @@ def sampled_case(draw):
             st.tuples(st.just("fin"), st.sampled_from([0, 0, 4, 5, CL, 15])).map(list),
             st.tuples(st.just("tickfin"), st.sampled_from([0, 4]), st.integers(0, 3)).map(list),
         )
-        cfg = _cfg(csum, True, draw(st.integers(1, 3)))
+        cfg = _cfg(csum, draw(st.booleans()), draw(st.integers(1, 3)))
         cfg["chk_ms_src"], cfg["chk_ms_dst"] = draw(st.sampled_from([[2, 1000], [10, 3], [1000, 20], [1000, 60000], [50, 50]]))
         cfg["max_seg"] = draw(st.sampled_from([1, 3, 4, 16]))
         return {"part": "send", "cfg": cfg, "seg": cfg["max_seg"], "size": size, "pat": draw(st.binary(min_size=1, max_size=8)), "timeline": draw(st.lists(op, max_size=6))}
@@ -441,7 +450,10 @@ def sampled_case(draw):
     early = list(draw(st.permutations(early)))
     if early and draw(st.integers(0, 3)) == 0:
         early.append(draw(st.sampled_from(early)))  # duplicate
-    tl = [["seg", i] for i in early] + ["eof"]
+    tl = [["seg", i] for i in early]
+    if draw(st.integers(0, 2)) == 0:
+        tl.insert(draw(st.integers(0, len(tl))), ["wait", draw(st.sampled_from([1, 999, 1000, 5000, 100000]))])
+    tl.append("eof")
     # arrival slot of each late segment; a bias towards the decisive region around L
     ops = []
     for i in late:
